@@ -275,8 +275,23 @@ func runC34(c *Ctx) {
 				}
 			}
 		})
-		// bo.X is an ADD of two lens: edgesImplying works on referrers of that value
-		okB := h != nil && len(within) > 0
+		// the bounded quantity counts BOTH kinds of attempts (failed and
+		// partially successful methods): len(a)+len(b) over two distinct lists
+		sumOK := false
+		allInstrs(f, func(in ssa.Instruction) {
+			if bo, ok := in.(*ssa.BinOp); ok && okm {
+				if k, ok := constInt(bo.Y); ok && k == maxT {
+					if add, ok := bo.X.(*ssa.BinOp); ok && add.Op == token.ADD {
+						l1, ok1 := add.X.(*ssa.Call)
+						l2, ok2 := add.Y.(*ssa.Call)
+						if ok1 && ok2 && calleeName(&l1.Call) == "builtin:len" && calleeName(&l2.Call) == "builtin:len" && l1.Call.Args[0] != l2.Call.Args[0] {
+							sumOK = true
+						}
+					}
+				}
+			}
+		})
+		okB := h != nil && len(within) > 0 && sumOK
 		if okB {
 			cut := edgeSet{}
 			cut.addAll(within)
